@@ -585,11 +585,29 @@ def extends_ok(pre, post):
     return None
 
 
+def kinds_ok(post, terms):
+    """An integer (float) unknown may only stand for an integer (float) scalar or another unknown."""
+    for t in terms:
+        for s in subterms(t):
+            if s[0] == "Node" and hname(s) == "HInfer" and s[1][2] != "General":
+                val = post.deep(s)
+                h = hname(val)
+                if h == "HInfer" or h == "HError":
+                    continue
+                want = ("Int", "Uint") if s[1][2] == "Integer" else ("Float",)
+                if not (h == "HScalar" and isinstance(val[1][1], tuple) and val[1][1][0] in want):
+                    return "%s unknown ?%d stands for %s" % (s[1][2], s[1][1], sx.to_sexp(val)[:120])
+    return None
+
+
 def check_relate_ok(pre, post, variance, a, b, goals):
     """Soundness of one successful real relate, on the implementation's output alone."""
     d = extends_ok(pre, post)
     if d:
         return "extends: " + d
+    d = kinds_ok(post, [a, b])
+    if d:
+        return "kinds: " + d
     facts = goal_facts(norm_goals(post, goals))
     d = eq_mod(post.deep(a), post.deep(b), facts, variance)
     if d:
